@@ -236,44 +236,25 @@ fn main() {
         let t = garbage(&mut ctx.rng);
         jobs.push(Job { label: "garbage".into(), text: t, model: k % 10 == 0 });
     }
+    // self-referential definitions through every type constructor; generic names with every type-argument count
+    for (k, (label, text)) in infinite_type_texts().into_iter().chain(arity_texts()).enumerate() {
+        jobs.push(Job { label, text, model: k % 25 == 0 });
+    }
     let nw = n_threads();
-    // probes of the confirmed crashes whose fix is pending (see fecorpus::GATES)
-    let gate_inputs: Vec<String> = GATES.iter().map(|(id, _, t)| format!("-\x1fgate:{id}\x1f{t}")).collect();
+    // regression inputs: the confirmed crashes whose fixes have landed (fecorpus::GATES); a crash is a failing input
+    let gate_inputs: Vec<String> = GATES.iter().map(|(id, t)| format!("-\x1fgate:{id}\x1f{t}")).collect();
     let gate_res = run_workers(&["--worker"], &gate_inputs, GATES.len(), std::time::Duration::from_secs(20));
-    let mut gated_sites: BTreeMap<String, String> = BTreeMap::new();
-    let mut gate_aborts: Option<&str> = None;
-    for ((id, pending, text), r) in GATES.iter().zip(gate_res) {
-        if !pending {
-            // the fix has landed: a regression input
-            let crashed = match &r {
-                Res::Died(why) => Some(format!("takes the process down ({why})")),
-                Res::Ok(s) => {
-                    let o = decode(s);
-                    if o.crashes.is_empty() { None } else { Some(format!("panics ({:?})", o.crashes[0])) }
-                }
-            };
-            match crashed {
-                Some(how) => ctx.spec_fail(format!("regression of {id} (fixed earlier): the front end {how} on {:?}", text)),
-                None => ctx.count("regression-probe:pass"),
-            }
-            continue;
-        }
-        match r {
-            Res::Died(why) => {
-                gate_aborts = Some(id);
-                ctx.notes.push(format!("{id}: the probe still takes the process down ({why}); process deaths on texts of its shape are attributed to it (fix pending)"));
-            }
+    for ((id, text), r) in GATES.iter().zip(gate_res) {
+        let crashed = match &r {
+            Res::Died(why) => Some(format!("takes the process down ({why})")),
             Res::Ok(s) => {
-                let o = decode(&s);
-                if o.crashes.is_empty() {
-                    ctx.notes.push(format!("{id}: the probe no longer crashes; nothing is gated for it"));
-                } else {
-                    for c in &o.crashes {
-                        gated_sites.insert(c.site.clone(), id.to_string());
-                    }
-                    ctx.notes.push(format!("{id}: the probe still panics at {}; panics at that site are attributed to it (fix pending)", o.crashes[0].site));
-                }
+                let o = decode(s);
+                if o.crashes.is_empty() { None } else { Some(format!("panics ({:?})", o.crashes[0])) }
             }
+        };
+        match crashed {
+            Some(how) => ctx.spec_fail(format!("regression of {id} (fixed earlier): the front end {how} on {:?}", text)),
+            None => ctx.count("regression-probe:pass"),
         }
     }
     let inputs: Vec<String> = jobs.iter().map(job_input).collect();
@@ -281,7 +262,7 @@ fn main() {
     let mut seen: BTreeMap<(String, String), u64> = BTreeMap::new();
     let mut queries = 0u64;
     for (j, r) in jobs.iter().zip(results) {
-        let kind = j.label.split(':').take(if j.label.starts_with("mut") { 2 } else { 1 }).collect::<Vec<_>>().join(":");
+        let kind = j.label.split(':').take(if j.label.starts_with("mut") || j.label.starts_with("inftype") || j.label.starts_with("arity") { 2 } else { 1 }).collect::<Vec<_>>().join(":");
         ctx.count(&format!("text:{kind}"));
         if !j.text.is_ascii() {
             ctx.count("text:non-ascii");
@@ -289,12 +270,6 @@ fn main() {
         let o = match r {
             Res::Ok(s) => decode(&s),
             Res::Died(why) => {
-                if let Some(id) = gate_aborts {
-                    if self_referential_fn(&j.text) {
-                        ctx.count(&format!("gated:{id}"));
-                        continue;
-                    }
-                }
                 let n = seen.entry(("process".to_string(), why.to_string())).or_insert(0);
                 *n += 1;
                 if *n <= 2 {
@@ -314,10 +289,6 @@ fn main() {
         *ctx.hist.entry("answered:type_at".into()).or_insert(0) += o.answered[1];
         *ctx.hist.entry("answered:completions_at".into()).or_insert(0) += o.answered[2];
         for c in &o.crashes {
-            if let Some(id) = gated_sites.get(&c.site) {
-                ctx.count(&format!("gated:{id}"));
-                continue;
-            }
             let key = (c.query.to_string(), c.site.clone());
             let n = seen.entry(key).or_insert(0);
             *n += 1;
